@@ -49,7 +49,7 @@ class Net:
                       ipv6=False, nodelay=True, sslContext=None):
         if bind is not None:
             host, port = bind if isinstance(bind, tuple) else (bind, 0)
-            if port == 0:
+            if port == 0 and isinstance(bind, tuple):      # (a Unix socket path has no port: it is found again under (path, 0))
                 self.nextport += 1
                 port = self.nextport
             ls = FakeListen(self, (host or "127.0.0.1", port))
